@@ -34,7 +34,7 @@ class Ctx:
         self.exhaustive = False
         self.workdir = common.workdir(pid)
         self.known = load_known(pid)
-        self.max_violation_reports = 25
+        self.max_violation_reports = int(os.environ.get("VERIF_MAX_REPORTS", "25"))
 
     # ---- coverage
     def ev(self, n: int = 1):
